@@ -49,6 +49,7 @@ MANIFEST = {
     'technique': 'verified certificate checker + verified reference oracle in Coq, differential correspondence, bounded exhaustive theorems',
 }
 
+PDOM_COQ_MAX = 12
 COQ_IMPORTS = ['Spec.CfgSpec', 'Model.DomRef', 'Model.DomTree']
 
 
@@ -332,6 +333,8 @@ def coq_cases(succ, ans):
     cs.append(('(reach_rows %s, calculate_reach %d %s)%%nat' % (G, n * n + 2, G),
                Internal if is_exc(ans['reach']) else (ans['reach'], OkV(ans['reach'])), 'can_reach+model'))
     for x, got in sorted(ans['pdom'].items()):
+        if n > PDOM_COQ_MAX:      # n^2 searches in the reference: larger graphs go to the Python oracle only
+            break
         if is_exc(got):
             cs.append(('(pdom_rows %s %d)%%nat' % (G, x), Internal, 'post_dominates'))
             continue
@@ -341,7 +344,7 @@ def coq_cases(succ, ans):
         # ipdom only where the exit is reachable (elsewhere every node post-dominates vacuously)
         canreach = [x in reach_from(succ, w) for w in range(n)]
         mask = '[%s]' % '; '.join('true' if c else 'false' for c in canreach)
-        cs.append(('(map (fun p => if fst p then snd p else None) (combine %s (ipdom_list %s %d)))%%nat' % (mask, G, x),
+        cs.append(('(mask_opt %s (ipdom_list %s %d))%%nat' % (mask, G, x),
                    [ip[w] if canreach[w] else None for w in range(n)], 'immediate_post_dominator'))
     return cs
 
